@@ -358,7 +358,8 @@ def generate(repo):
                 continue
             _decorators(fn, where)
             guards.append((q, _guard(fn, where)))
-        rows.append(f'''  {{ name := {_lstr(name)}, module := {_lstr(c["module"])}, bases := {_llist(_lstr(b) for b in c["bases"])},
+        rows.append(f'''  {{ name := {_lstr(name)}, module := {_lstr(c["module"])}, package := {_lstr(c["module"].split(".")[1])},
+    qualname := {_lstr(c["module"] + "." + name)}, bases := {_llist(_lstr(b) for b in c["bases"])},
     ownInit := {"true" if "__init__" in own else "false"}, initOwner := {_lstr(owner)}, storeArgs := {"true" if store else "false"},
     params := {_llist(_lstr(p) for p in params)}, required := {_llist(_lstr(p) for p in required)},
     fitWrites := {_llist(_lstr(w) for w in writes)}, fitDecorators := {_llist(_lstr(d) for d in fit_decs)},
